@@ -68,21 +68,21 @@ func (p *fakePool) GetCheck(ctx context.Context) (backend.PooledConnect, error) 
 	}
 	return &fakeConn{p: p, check: true}, nil
 }
-func (p *fakePool) Put(pc backend.PooledConnect)              {}
-func (p *fakePool) SetCapacity(capacity int) (err error)      { return nil }
-func (p *fakePool) SetIdleTimeout(idleTimeout time.Duration)  {}
-func (p *fakePool) StatsJSON() string                         { return "{}" }
-func (p *fakePool) Capacity() int64                           { return 1 }
-func (p *fakePool) Available() int64                          { return 1 }
-func (p *fakePool) Active() int64                             { return 0 }
-func (p *fakePool) InUse() int64                              { return 0 }
-func (p *fakePool) MaxCap() int64                             { return 1 }
-func (p *fakePool) WaitCount() int64                          { return 0 }
-func (p *fakePool) WaitTime() time.Duration                   { return 0 }
-func (p *fakePool) IdleTimeout() time.Duration                { return 0 }
-func (p *fakePool) IdleClosed() int64                         { return 0 }
-func (p *fakePool) SetLastChecked()                           { p.lastChecked = time.Now().Unix() }
-func (p *fakePool) GetLastChecked() int64                     { return p.lastChecked }
+func (p *fakePool) Put(pc backend.PooledConnect)             {}
+func (p *fakePool) SetCapacity(capacity int) (err error)     { return nil }
+func (p *fakePool) SetIdleTimeout(idleTimeout time.Duration) {}
+func (p *fakePool) StatsJSON() string                        { return "{}" }
+func (p *fakePool) Capacity() int64                          { return 1 }
+func (p *fakePool) Available() int64                         { return 1 }
+func (p *fakePool) Active() int64                            { return 0 }
+func (p *fakePool) InUse() int64                             { return 0 }
+func (p *fakePool) MaxCap() int64                            { return 1 }
+func (p *fakePool) WaitCount() int64                         { return 0 }
+func (p *fakePool) WaitTime() time.Duration                  { return 0 }
+func (p *fakePool) IdleTimeout() time.Duration               { return 0 }
+func (p *fakePool) IdleClosed() int64                        { return 0 }
+func (p *fakePool) SetLastChecked()                          { p.lastChecked = time.Now().Unix() }
+func (p *fakePool) GetLastChecked() int64                    { return p.lastChecked }
 
 type fakeConn struct {
 	p      *fakePool
@@ -90,10 +90,10 @@ type fakeConn struct {
 	closed bool
 }
 
-func (c *fakeConn) Recycle()            {}
-func (c *fakeConn) Reconnect() error    { return nil }
-func (c *fakeConn) Close()              { c.closed = true }
-func (c *fakeConn) IsClosed() bool      { return c.closed }
+func (c *fakeConn) Recycle()              {}
+func (c *fakeConn) Reconnect() error      { return nil }
+func (c *fakeConn) Close()                { c.closed = true }
+func (c *fakeConn) IsClosed() bool        { return c.closed }
 func (c *fakeConn) UseDB(db string) error { return nil }
 func (c *fakeConn) Execute(sql string, maxRows int) (*mysql.Result, error) {
 	if sql == "show slave status;" {
